@@ -1,3 +1,9 @@
 package config
 
+import "github.com/git-lfs/git-lfs/v3/git"
+
 func verifPushRemoteStub16(c *Configuration) string { return "origin" }
+
+func verifCurrentRefStub16c(c *Configuration) *git.Ref {
+	return &git.Ref{Name: "main", Type: git.RefTypeLocalBranch, Sha: "1111111111111111111111111111111111111111"}
+}
